@@ -22,10 +22,16 @@ int nondet_int(void);
             i++;                                                                                                       \
             if (f[i] == L'%') { i++; continue; }                                                                       \
             if (is_scanf) {                                                                                            \
-                if (f[i] == L'*') i++;                                                                                 \
-                if (f[i] == L'\'') i++;                                                                                \
-                for (unsigned g = 0; g < RB; g++) if (f[i] >= L'0' && f[i] <= L'9') i++;                               \
-                if (f[i] == L'$') i++;                                                                                 \
+                /* glibc: digits first are n$ or already the width; the flags * ' I in any order, repeated; width */    \
+                int gotw = 0;                                                                                          \
+                if (f[i] >= L'0' && f[i] <= L'9') {                                                                    \
+                    for (unsigned g = 0; g < RB; g++) if (f[i] >= L'0' && f[i] <= L'9') i++;                           \
+                    if (f[i] == L'$') i++; else gotw = 1;                                                              \
+                }                                                                                                      \
+                if (!gotw) {                                                                                           \
+                    for (unsigned g = 0; g < RB; g++) if (f[i] == L'*' || f[i] == L'\'' || f[i] == L'I') i++;          \
+                    for (unsigned g = 0; g < RB; g++) if (f[i] >= L'0' && f[i] <= L'9') i++;                           \
+                }                                                                                                      \
                 if (f[i] == L'm') i++;                                                                                 \
             } else {                                                                                                   \
                 for (unsigned g = 0; g < RB; g++) if (f[i] >= L'0' && f[i] <= L'9') i++; /* n$ or width */             \
